@@ -222,7 +222,8 @@ theorem setChaddr_length (h h' : Bytes) (v : String) (hb : 44 ≤ h.length) (e :
     · rename_i hlen
       simp only [Out.pure_eq] at e; injection e with e; subst e
       have : b.length = 6 ∨ b.length = 16 := by simpa using hlen
-      exact patch_length h b 28 (by omega)
+      exact patch_length h (b ++ List.replicate (16 - b.length) 0) 28 (by
+        simp only [List.length_append, List.length_replicate]; omega)
     · cases e
   | throw x => simp only [hx, bind, Out.bind] at e; cases e
   | fault s => simp only [hx, bind, Out.bind] at e; cases e
